@@ -5,6 +5,7 @@ The registry content at function entry is arbitrary here (no registry invariant 
 may hold an entry left behind by a dead object with the same id."""
 from pvc.contract import contract, External, Loop
 from pvc.types import *
+import specs.values  # noqa: F401
 
 R = "nix_manipulator/resolution.py"
 _ENTRY = "global_map('_CONTEXTS', id(expr))"
@@ -32,7 +33,7 @@ contract(
     # type invariant of the registry: entries are (weak reference, context) pairs
     requires=[f"implies({_ENTRY} is not None, {_ENTRY}[0] is not None and isinstance({_ENTRY}[0], weakref))"],
     domain=False,
-    props=["C10"],
+    props=["C10", "C11"],
 )
 
 contract(
@@ -47,7 +48,7 @@ contract(
         "heap_unchanged()",
     ],
     domain=False,
-    props=["C10"],
+    props=["C10", "C11"],
 )
 
 contract(
@@ -62,5 +63,40 @@ contract(
     ensures=[],
     exsures={},  # the assertions must never fail
     domain=False,
-    props=["C10"],
+    props=["C10", "C11"],
+)
+
+# scope chain of an owner (C10: "the innermost enclosing let ... wins"; C11): the chain starts with the chain the owner
+# inherited, in the same order, and the owner's own outermost let layer comes right after it - as the very object
+# (identity, not equality: a layer that merely looks like an enclosing one is still a layer of its own).
+# Restricted to a non-recursive attribute set as owner (the `rec`, `with` and call cases go through helpers that are not
+# under contract); the inner layers come from a list comprehension, which pvc only over-approximates.
+contract(
+    target=f"{R}::scopes_for_owner",
+    params={"owner": Ref("AttributeSet")},
+    returns=ListRef("Scope"),
+    requires=["not owner.recursive", "owner.scope is not None"],
+    global_maps={"_CONTEXTS": "tuple"},
+    modifies=["*"],
+    externals={
+        "_get_context": External(returns=Opt(Ref("ResolutionContext")), params=["expr"], modifies=[],
+                                 ensures=["result is stored_context(expr)", "implies(result is not None, result.scopes is not None)"]),
+        "_collect_scopes_from_layers": External(returns=ListRef("Scope"), params=["layers", "owner"], fresh=True, modifies=[]),
+        "_as_scope": External(returns=Ref("Scope"), params=["value", "owner"], modifies=["value.owner"],
+                              ensures=["implies(isinstance(value, Scope), result is value)"]),
+    },
+    ensures=[
+        "result is not None",
+        # inherited chain first, unchanged and in order; the owner's own outermost layer directly after it
+        "implies(stored_context(owner) is not None, len(result) >= len(stored_context(owner).scopes) and "
+        "all(result[k] is stored_context(owner).scopes[k] for k in range(len(stored_context(owner).scopes))))",
+        "implies(stored_context(owner) is not None and len(owner.scope) > 0, len(result) > len(stored_context(owner).scopes) and "
+        "result[len(stored_context(owner).scopes)] is owner.scope)",
+        "implies(stored_context(owner) is None and len(owner.scope) > 0, len(result) > 0 and result[0] is owner.scope)",
+    ],
+    loops={0: Loop(invariant=["implies(len(owner.scope) > 0, len(owner_scopes) >= 1 and owner_scopes[0] is owner.scope)"],
+                   modifies=["owner_scopes[]"])},
+    locals={"scopes": ListRef("Scope"), "owner_scopes": ListRef("Scope")},
+    domain=False,
+    props=["C10", "C11"],
 )
